@@ -54,7 +54,7 @@ def evaluated_registry(ctx):
     mod = ctx.p.module(CF)
     REG = _FakeRegistry()
     from ..core.interp import STDLIB_CALLS, STDLIB_MODELS
-    shared = {"Connectors": (lambda: REG), "operator": STDLIB_MODELS["operator"], "Connector": "Connector"}
+    shared = {"Connectors": (lambda: REG), "operator": STDLIB_MODELS["operator"], "Connector": CONNECTOR}
     shared.update({local: STDLIB_MODELS[imp[1]] for local, imp in ctx.r.imports.get(CF, {}).items() if imp[0] == "module" and imp[1] in STDLIB_MODELS and "." not in local})
 
     def type_of(x):
@@ -448,7 +448,32 @@ def _truth(f, val):
             return (not a[0]) or a[1]
         if n == "=":
             return all(x == a[0] for x in a)
+        if n == "distinct":
+            return len(set(a)) == len(a)
+        if n == "<":
+            return a[0] < a[1]
+        if n == "<=":
+            return a[0] <= a[1]
     raise Unsupported(f"cannot evaluate {f!r}")
+
+
+class _ConnectorType:
+    """Stand-in for the class Connector inside interpreted code: equal to the tag `type(x)` yields for a stand-in connector, and callable as
+    the constructor Connector(name, is_commutative, *args) (no arity check, exactly like the real class)."""
+    def __eq__(self, other):
+        return other is self or other == "Connector"
+
+    def __ne__(self, other):
+        return not self.__eq__(other)
+
+    def __hash__(self):
+        return hash("Connector")
+
+    def __call__(self, name, comm, *args):
+        return FakeConn(name, comm, *args)
+
+
+CONNECTOR = _ConnectorType()
 
 
 def _fresh(x):
@@ -510,11 +535,20 @@ def _simplifier_runner(ctx):
         raise Unsupported(f"call {fname}")
 
     stdlib = {local: STDLIB_MODELS[imp[1]] for local, imp in ctx.r.imports.get(CF, {}).items() if imp[0] == "module" and imp[1] in STDLIB_MODELS and "." not in local}
+    consts = {}       # module-level literal tables of connector_factory (look-up tables the simplifiers consult)
+    for st in mod.tree.body:
+        if isinstance(st, ast.Assign) and all(isinstance(t, ast.Name) for t in st.targets):
+            try:
+                v = ast.literal_eval(st.value)
+            except Exception:
+                continue
+            for t in st.targets:
+                consts[t.id] = v
 
     def run(f, *cargs, **ckwargs):
         def type_of(x):
             return bool if isinstance(x, bool) else int if isinstance(x, int) else "Connector" if isinstance(x, FakeConn) else "ExpressionReference"
-        ev = Evaluator(f.node, globals_env={**stdlib, "Connector": "Connector", "bool": bool, "int": int, "type": type_of, "_connectors": {"\0module": "_connectors"}},
+        ev = Evaluator(f.node, globals_env={**stdlib, **consts, "Connector": CONNECTOR, "bool": bool, "int": int, "type": type_of, "_connectors": {"\0module": "_connectors"}},
                        call_hook=hook, obj_types=(FakeConn,))
         return ev.call(*cargs, **ckwargs)
 
@@ -524,15 +558,18 @@ def _simplifier_runner(ctx):
 def rule_d(ctx, out):
     mod, reg, simps, mk, run = _simplifier_runner(ctx)
     p, q = Atom("p"), Atom("q")
+    ix, iy, iz = Atom("ix"), Atom("iy"), Atom("iz")
 
     shapes = {
         "and": [True, False, p, q, mk("and", p, q), mk("not", p), mk("or", p, q)],
         "or": [True, False, p, q, mk("or", p, q), mk("not", q), mk("and", p, q)],
-        "not": [True, False, p, mk("not", p), mk("not", mk("not", q)), mk("and", p, q)],
+        # (negations of integer comparisons too: `distinct` is variadic and pairwise, `=` chains — they are duals for two operands only)
+        "not": [True, False, p, mk("not", p), mk("not", mk("not", q)), mk("and", p, q), mk("=", ix, iy), mk("distinct", ix, iy), mk("distinct", ix, iy, iz),
+                mk("<", ix, iy), mk("<=", ix, iy)],
         "=>": [True, False, p, q, mk("not", p), mk("=>", p, q), mk("=>", q, p), mk("=>", p, p), mk("and", p, q), mk("or", p, q)],
         "=": [True, False, p, q],
     }
-    vals = [dict(p=a, q=b) for a in (False, True) for b in (False, True)]
+    vals = [dict(p=a, q=b, ix=c, iy=d, iz=e) for a in (False, True) for b in (False, True) for c in (0, 1) for d in (0, 1) for e in (0, 1, 2)]
     mutating = set()
     for name, f in sorted(simps.items()):
         if name not in shapes:
